@@ -329,7 +329,14 @@ pub fn mutate(r: &mut Rng, bytes: &[u8], op: &str) -> Vec<u8> {
                 let pl = b[i] as usize;
                 if pl > 0 {
                     let id = b[i + 1];
-                    let enc: &[u8] = if r.chance(1, 2) { &[0x00] } else { &[0x80, 0x80, 0x80, 0x70] };
+                    // ... or as the canonical two-byte form of identifier + 256 / + 384, which no
+                    // property has
+                    let enc: &[u8] = match r.below(4) {
+                        0 => &[0x00],
+                        1 => &[0x80, 0x80, 0x80, 0x70],
+                        2 => &[0x02],
+                        _ => &[0x03],
+                    };
                     if pl + enc.len() < 0x80 && b[1] as usize + enc.len() < 0x80 && id < 0x80 {
                         b[i + 1] = id | 0x80;
                         for (k, t) in enc.iter().enumerate() {
